@@ -220,7 +220,8 @@ def patched_lock_provider(sched: Scheduler) -> Iterator[_Uniform]:
     """time.time / time.monotonic / time.sleep / random.uniform of datashard.lock_provider and the clock
     reads of datetime.datetime (now / utcnow / today; the class is imported inside _try_takeover_expired) go
     through the scheduler, all on one time line (module docstring); the heartbeat thread is replaced by
-    explicit renew events (S3LockProviderBase._start_heartbeat / _stop_heartbeat_thread only flip a flag)."""
+    explicit renew events (S3LockProviderBase._start_heartbeat / _stop_heartbeat_thread only flip a flag; a renew
+    event runs one iteration of the real _heartbeat_loop as an actor of its own, lockruns.S3Run._renew)."""
     import datashard.lock_provider as lp
 
     uni = _Uniform(sched)
